@@ -312,6 +312,7 @@ type scenario struct {
 	viaNew     bool                     // the Writer is built by the deprecated constructor NewWriter(WriterConfig)
 	defBal     bool                     // Writer.Balancer left unset: the default round-robin (one goroutine: message j of the run goes to partition j mod n)
 	writeTO    time.Duration            // > 0: Writer.WriteTimeout
+	prodMax    int16                    // wire: brokers advertise Produce only up to this version (0 = whatever the cluster model advertises)
 	stallAt    int                      // wire: the broker stops reading in the middle of the n-th produce request to arrive (special "stallwrite")
 	linger     time.Duration            // > 0: timed run — the trace carries clock ticks and the model's linger bound (BatchTimeout + slack) applies
 	trickle    time.Duration            // > 0 (with one caller): pause between the calls of a caller
@@ -735,6 +736,7 @@ func (b *builder) tombstones(i int) *scenario {
 		timeout: 2 * time.Millisecond, nparts: map[string]int{"t": 1 + i%2}, faults: map[tpKey][]fault{}, closeAt: -1}
 	if i%2 == 1 {
 		sc.wire, sc.jitter, sc.jitterUs, sc.ma = 2, true, 300, 4
+		sc.prodMax = []int16{3, 4, 0, 6}[(i/2)%4]
 	}
 	shapes := []string{"kv", "kn", "kv", "nv", "ke", "kn", "ev", "kv", "kn", "nv"}
 	var calls []callSpec
@@ -1005,6 +1007,7 @@ func (b *builder) wireScenario(i int) *scenario {
 	if i%5 == 4 {
 		sc.closeAt = time.Duration(500+r.Intn(4000)) * time.Microsecond // Close while requests are on the wire
 	}
+	sc.prodMax = []int16{0, 3, 4, 7, 5, 3}[i%6] // old brokers: the Produce version the Transport negotiates down to
 	// leader moves after a few produce requests, on random partitions
 	nm := 1 + r.Intn(3)
 	for k := 0; k < nm; k++ {
@@ -1096,6 +1099,7 @@ func run(sc *scenario, out *bufio.Writer) {
 		w.Transport, w.Addr = tr, wc.bootAddr()
 		w.WriteBackoffMin, w.WriteBackoffMax = 2*time.Millisecond, 6*time.Millisecond
 		wc.stallAt = sc.stallAt
+		wc.prodMax = sc.prodMax
 		if sc.writeTO > 0 {
 			w.WriteTimeout = sc.writeTO
 		}
@@ -1549,6 +1553,21 @@ func run(sc *scenario, out *bufio.Writer) {
 						batch = b
 					}
 				}
+				// the answer to this request was read by the client completely (Br.Delivered follows the broker's decision
+				// before its next decision on that partition): then it did arrive, whatever the client made of it
+				delivered := false
+				for j := idx + 1; j < len(evs); j++ {
+					if evs[j].Kind == "Br.Produce" && evs[j].Args[0] == e.Args[0] && evs[j].Args[1] == e.Args[1] {
+						break
+					}
+					if evs[j].Kind == "Br.Delivered" && evs[j].Args[0] == e.Args[0] && evs[j].Args[1] == e.Args[1] {
+						delivered = true
+						break
+					}
+				}
+				if delivered {
+					continue
+				}
 				for j := idx + 1; j < len(evs) && batch != ""; j++ {
 					if evs[j].Kind == "PW.AttemptDone" && evs[j].Args[1] == batch {
 						got := evs[j].Args[3]
@@ -1692,6 +1711,9 @@ func renderEvents(evs []kafka.VerifEvent, tickAt map[int]int64) string {
 		// only the Writer's own alphabet (a real Transport underneath records its T.* events in the same log)
 		if !(strings.HasPrefix(e.Kind, "W.") || strings.HasPrefix(e.Kind, "PW.") || strings.HasPrefix(e.Kind, "Q.") ||
 			strings.HasPrefix(e.Kind, "B.") || strings.HasPrefix(e.Kind, "Br.")) {
+			continue
+		}
+		if e.Kind == "Br.Delivered" { // the wire broker's note that its answer was read by the client: used before rendering only
 			continue
 		}
 		if t, ok := tickAt[e.Seq]; ok {
